@@ -3,7 +3,7 @@
    (Related statements are grouped into one conjunction per family: Print Assumptions costs about a second per theorem.) *)
 From Coq Require Import ZArith NArith Bool List Reals.
 From Flocq Require Import Core.Core IEEE754.BinarySingleNaN.
-From CppUVerif Require Import lib.CInt lib.Dbl lib.Str lib.CSem gen.Gen_LeafC03 C03_Model C03_Proofs C03_DblProofs C03_Main C03_LeafTie.
+From CppUVerif Require Import lib.CInt lib.Dbl lib.Str lib.CSem gen.Gen_LeafC03 C03_Model C03_Proofs C03_DblProofs C03_Main C03_LeafTie C03_SideFx C03_SideFxProofs.
 Import ListNotations.
 Local Open Scope Z_scope.
 
@@ -125,10 +125,59 @@ Theorem C03_double_finite : forall d1 d2 t, d_finite d1 = true -> d_finite d2 = 
 Proof. exact double_finite_all. Qed.
 Print Assumptions C03_double_finite.
 
-(* the executable oracle used on the implementation's observations accepts every model observation *)
-Theorem C03_run_meets_spec : forall c, valid c = true -> spec c (run c) = true.
-Proof. exact run_meets_spec. Qed.
+(* the executable oracle used on the implementation's observations accepts every model observation -- for every valid
+   scenario of the extended language (C03_SideFx.v): XOld c is a check on operand VALUES, where x_valid / x_spec / x_run are
+   valid c / spec c / run c; XSe c is a check whose operands are expressions with side effects (scripts of values) *)
+Theorem C03_run_meets_spec : forall x, x_valid x = true -> x_spec x (x_run x) = true.
+Proof. exact x_run_meets_spec. Qed.
 Print Assumptions C03_run_meets_spec.
+
+(* operand expressions with side effects in the macros that evaluate an operand more than once (CHECK_EQUAL_LOCATION behind
+   CHECK_EQUAL / _TEXT / _ZERO / _ZERO_TEXT, CHECK_COMPARE_LOCATION): what is recorded, counted and whether the test goes on
+   is exactly what the same check records for operands that keep the values of the FIRST comparison; hence two checks that
+   agree on the kind, the type and the first value of each operand give the same verdict whatever later evaluations yield *)
+Theorem C03_sidefx_verdict_of_first_comparison :
+  (forall c, xo (se_run c) = run (first_check c)) /\
+  (forall c c', first_check c = first_check c' -> xo (se_run c) = xo (se_run c')).
+Proof. exact (conj se_verdict_first se_later_reads_irrelevant). Qed.
+Print Assumptions C03_sidefx_verdict_of_first_comparison.
+
+(* in mathematical terms (both operand expressions of one integer type, all script values in its range): CHECK_EQUAL records
+   exactly one failure and leaves the test iff the first values differ, records nothing and goes on iff they are equal, and is
+   counted once; CHECK_EQUAL_ZERO likewise against 0; CHECK_COMPARE fails (counted once) iff the relation is false of the
+   first values and is not counted when it passes *)
+Theorem C03_sidefx_fails_iff_first_values_differ :
+  (forall t se sa, se_valid (SeEqual t se sa) = true ->
+     (o_failures (xo (se_run (SeEqual t se sa))) = 1%N <-> s_first se <> s_first sa) /\
+     (o_failures (xo (se_run (SeEqual t se sa))) = 0%N <-> s_first se = s_first sa) /\
+     o_checks (xo (se_run (SeEqual t se sa))) = 1%N /\
+     (o_after (xo (se_run (SeEqual t se sa))) = true <-> s_first se = s_first sa)) /\
+  (forall t sa, se_valid (SeZero t sa) = true ->
+     (o_failures (xo (se_run (SeZero t sa))) = 1%N <-> s_first sa <> 0) /\
+     (o_failures (xo (se_run (SeZero t sa))) = 0%N <-> s_first sa = 0) /\
+     o_checks (xo (se_run (SeZero t sa))) = 1%N) /\
+  (forall op t sf ss, se_valid (SeCompare op t sf ss) = true ->
+     let o := xo (se_run (SeCompare op t sf ss)) in
+     let r := rel op (s_first sf) (s_first ss) in
+     o_failures o = (if r then 0%N else 1%N) /\ o_checks o = (if r then 0%N else 1%N) /\ o_after o = r).
+Proof. exact (conj se_equal_fails_iff (conj se_zero_fails_iff se_compare_fails_iff)). Qed.
+Print Assumptions C03_sidefx_fails_iff_first_values_differ.
+
+(* the evaluation counts of the modelled (unchanged) macros -- compared with the implementation, not read by the oracle: a
+   passing check reads each operand once; a failing CHECK_EQUAL four times, a failing CHECK_COMPARE twice *)
+Theorem C03_sidefx_evaluations : forall c,
+  let o := se_run c in
+  let k := match c with SeCompare _ _ _ _ => 2%N | _ => 4%N end in
+  xo_na o = (if o_after (xo o) then 1%N else k) /\
+  xo_ne o = match c with SeZero _ _ => 0%N | _ => if o_after (xo o) then 1%N else k end.
+Proof. exact se_evaluations. Qed.
+Print Assumptions C03_sidefx_evaluations.
+
+(* the macro shape of seeded change C03-18 (verdict = a later evaluation of expected != actual) does NOT meet the spec:
+   CHECK_EQUAL(0, next()) with next() yielding 1, 0, 0, ... records no failure *)
+Theorem C03_sidefx_reread_verdict_refuted : ~ reread_meets_spec_stmt.
+Proof. exact reread_meets_spec_refuted. Qed.
+Print Assumptions C03_sidefx_reread_verdict_refuted.
 
 (* doubles_equal of the model IS the source: equal to the definition tools/cxx2coq.py regenerates from clang's AST of
    Utest.cpp on every run (gen/Gen_LeafDbl.v; IsNan/IsInf/Fabs, -, <=, == mapped to Flocq's binary64 operations) *)
